@@ -30,7 +30,14 @@ EXPLANATION = (
     "replaces the given entries only when None. (2') the old metadata is discarded only when seen None; a 'linkcrtime' "
     "not taken from the clock is known not to be None; every returning path stored a 'linkcrtime' or saw one; when "
     "the caller's metadata was seen not None it is what is returned. (3') the new name of a move is a default only "
-    "when the caller's was seen None. (4') Deleter.modify returns without deleting only for an absent name, raises "
+    "when the caller's was seen None; the inequality that lets move_child_to go on to get_child_and_metadata / set_node / "
+    "delete relates the names given to set_node and delete (modulo normalize(..) and local copies) and BOTH its operands "
+    "are results of normalize(..) on every reaching definition - the three operations address the entry by the normalised "
+    "name, so a guard on the raw spellings re-links the child onto itself and deletes it; (3) is read from either shape of "
+    "the function: the addCallback chain, or an inlineCallbacks generator, where `x = yield d` is the sequencing form - "
+    "every path to the delete statement has left a yield of set_node's Deferred normally (not through an except / finally), "
+    "a dropped set_node Deferred is a violation, and callbacks mixed into the generator stop with ANALYSIS-ERROR. "
+    "(4') Deleter.modify returns without deleting only for an absent name, raises "
     "NoSuchChildError only for an absent name with must_exist, never succeeds for absent + first_time + must_exist, and "
     "raises ChildOfWrongTypeError only for (must_be_directory and file) or (must_be_file and directory). (7) every "
     "operation building an Adder / Deleter / MetadataSetter passes its same-named arguments on, hands modifier.modify "
@@ -1178,8 +1185,9 @@ def run(ctx: Context):
         r.count(len(cfg.nodes) * 6 + len(visited))
 
     # -- 3. move_child_to ----------------------------------------------------
-    with ctx.rule("C20.3", "E7/R1", "move_child_to: delete(current) is a callback registered after the callback doing "
-                  "new_parent.set_node, which returns set_node's Deferred; rename-to-self returns before any effect",
+    with ctx.rule("C20.3", "E7/R1", "move_child_to: delete(current) runs only after new_parent.set_node succeeded (a callback "
+                  "registered after the one returning set_node's Deferred, or - under inlineCallbacks - a statement after the "
+                  "yield that waits for it); rename-to-self returns before any effect, decided on the normalize()d names",
                   expected=4) as r:
         fn = idx.func(DN + ".move_child_to")
         ps = first_positional_params(fn)
@@ -1188,57 +1196,180 @@ def run(ctx: Context):
         NP = ps[1]
         cfg = fn.cfg()
         fnorm = FlowNorm(fn)
-        rets = [n for n in cfg.find(is_return) if isinstance(_returned(cfg, fnorm, n), ast.Name)]
-        regs_all = registrations(fn)
-        dvars = {_returned(cfg, fnorm, n).id for n in rets} & {x.recv for x in regs_all}
-        if len(dvars) != 1:
-            raise AnchorVanished("move_child_to: the returned Deferred with the callback chain was not found")
-        dv = dvars.pop()
-        chain = [x for x in regs_all if x.recv == dv]
+        inline = any((attr_path(dc.func if isinstance(dc, ast.Call) else dc) or "").split(".")[-1] == "inlineCallbacks"
+                     for dc in fn.node.decorator_list)
 
-        def target_fn(x):
-            t = x.target
-            if isinstance(t, ast.Lambda):
-                return idx.lambda_func(fn, t)
-            if isinstance(t, ast.Name) and t.id in fn.nested:
-                return fn.nested[t.id]
-            return None
+        def same_expr(y, x):
+            """y is the expression x, or its copy in a duplicated finally body (same kind at the same source extent)."""
+            return y is x or (type(y) is type(x) and (getattr(y, "lineno", None), getattr(y, "col_offset", None),
+                                                      getattr(y, "end_lineno", None), getattr(y, "end_col_offset", None))
+                              == (getattr(x, "lineno", -1), getattr(x, "col_offset", -1),
+                                  getattr(x, "end_lineno", -1), getattr(x, "end_col_offset", -1)))
 
-        def calls_of(x, tail):
-            g = target_fn(x)
-            if g is None:
-                return []
-            return [(g, c) for c in calls_in_func(g, tail, into_lambda=True)]
-        i_set = [i for i, x in enumerate(chain) if calls_of(x, "set_node")]
-        i_del = [i for i, x in enumerate(chain) if calls_of(x, "delete")]
-        if not i_set:
-            raise AnchorVanished("move_child_to: no callback on %s performs set_node" % dv)
-        if not i_del:
-            raise AnchorVanished("move_child_to: no callback on %s performs delete" % dv)
-        iS, iD = i_set[0], i_del[0]
-        r.site(fn, chain[iS].call, "set_node callback")
-        r.site(fn, chain[iD].call, "delete callback")
-        r.require(iS < iD, fn, fn.loc(chain[iD].call), "the old link is deleted before (or together with) linking the child "
-                  "into the new parent: a failed rename loses the child")
-        r.require(chain[iD].kind == "cb", fn, fn.loc(chain[iD].call),
-                  "delete is registered with %s: it also runs when set_node failed" % chain[iD].call.func.attr)
-        r.require(chain[iS].kind == "cb", fn, fn.loc(chain[iS].call), "set_node callback registered as %s" % chain[iS].kind)
-        for x in chain[iS + 1:iD]:
-            r.require(x.kind == "cb", fn, fn.loc(x.call), "%s between set_node and delete can turn a failed set_node "
-                      "into success, after which the old link is deleted" % x.call.func.attr)
-        # the Deferred's source fetches the child that is later deleted
-        srcs = [n for n in cfg.nodes if n.kind == "stmt" and assign_value(n, dv) is not None]
-        if len(srcs) != 1 or not isinstance(assign_value(srcs[0], dv), ast.Call):
-            raise AnchorVanished("move_child_to: source of Deferred %s not found" % dv)
-        getc = assign_value(srcs[0], dv)
+        def nodes_of(x):
+            """Every CFG node of move_child_to that evaluates the expression x (a finally body is copied per exit kind)."""
+            return [n for n in cfg.nodes
+                    if any(same_expr(y, x) for e in node_exprs(n) for y in own_nodes(e, into_lambda=True))]
+
+        def leaves_early(n):
+            """A statement that ends the operation: return, or Twisted's returnValue(..) (which raises)."""
+            return is_return(n) or (n.kind == "stmt" and isinstance(n.ast, ast.Expr) and isinstance(n.ast.value, ast.Call)
+                                    and call_tail(n.ast.value) == "returnValue")
+
+        if not inline:
+            rets = [n for n in cfg.find(is_return) if isinstance(_returned(cfg, fnorm, n), ast.Name)]
+            regs_all = registrations(fn)
+            dvars = {_returned(cfg, fnorm, n).id for n in rets} & {x.recv for x in regs_all}
+            if len(dvars) != 1:
+                raise AnchorVanished("move_child_to: the returned Deferred with the callback chain was not found")
+            dv = dvars.pop()
+            chain = [x for x in regs_all if x.recv == dv]
+
+            def target_fn(x):
+                t = x.target
+                if isinstance(t, ast.Lambda):
+                    return idx.lambda_func(fn, t)
+                if isinstance(t, ast.Name) and t.id in fn.nested:
+                    return fn.nested[t.id]
+                return None
+
+            def calls_of(x, tail):
+                g = target_fn(x)
+                if g is None:
+                    return []
+                return [(g, c) for c in calls_in_func(g, tail, into_lambda=True)]
+            i_set = [i for i, x in enumerate(chain) if calls_of(x, "set_node")]
+            i_del = [i for i, x in enumerate(chain) if calls_of(x, "delete")]
+            if not i_set:
+                raise AnchorVanished("move_child_to: no callback on %s performs set_node" % dv)
+            if not i_del:
+                raise AnchorVanished("move_child_to: no callback on %s performs delete" % dv)
+            iS, iD = i_set[0], i_del[0]
+            r.site(fn, chain[iS].call, "set_node callback")
+            r.site(fn, chain[iD].call, "delete callback")
+            r.require(iS < iD, fn, fn.loc(chain[iD].call), "the old link is deleted before (or together with) linking the "
+                      "child into the new parent: a failed rename loses the child")
+            r.require(chain[iD].kind == "cb", fn, fn.loc(chain[iD].call),
+                      "delete is registered with %s: it also runs when set_node failed" % chain[iD].call.func.attr)
+            r.require(chain[iS].kind == "cb", fn, fn.loc(chain[iS].call), "set_node callback registered as %s" % chain[iS].kind)
+            for x in chain[iS + 1:iD]:
+                r.require(x.kind == "cb", fn, fn.loc(x.call), "%s between set_node and delete can turn a failed set_node "
+                          "into success, after which the old link is deleted" % x.call.func.attr)
+            # the Deferred's source fetches the child that is later deleted
+            srcs = [n for n in cfg.nodes if n.kind == "stmt" and assign_value(n, dv) is not None]
+            if len(srcs) != 1 or not isinstance(assign_value(srcs[0], dv), ast.Call):
+                raise AnchorVanished("move_child_to: source of Deferred %s not found" % dv)
+            getc = assign_value(srcs[0], dv)
+            F_nodes = [srcs[0]]
+            gS = target_fn(chain[iS])
+            set_calls = calls_of(chain[iS], "set_node")
+            del_calls = calls_of(chain[iD], "delete")
+            nS = _node_of_call(cfg, chain[iS].call)
+            nD = _node_of_call(cfg, chain[iD].call)
+            S_nodes = [nS] if nS is not None else []
+            D_nodes = [nD] if nD is not None else []
+
+            def from_pair(g, a):
+                return bool(depends_on(g, a) & set(g.params))
+            gcfg = gS.cfg()
+            gnorm = FlowNorm(gS)
+
+            def returns_set(n):
+                if not is_return(n) or n.ast.value is None:
+                    return False
+                v = gnorm.resolve(n, n.ast.value)
+                return isinstance(v, ast.Call) and call_tail(v) == "set_node"
+            for (t, w) in find_path_avoiding(gcfg, lambda x: x.kind == "exit", gate_node=returns_set):
+                r.violation(gS, gS.loc(), "the set_node callback does not return set_node's Deferred: delete runs without "
+                            "waiting for (or despite the failure of) the link into the new parent", w)
+        else:
+            # inlineCallbacks: the three operations are statements of the generator itself, `x = yield d` waits for d and
+            # re-raises its failure, so "registered after" becomes "on every path, after the yield was left normally"
+            def own_calls(tail):
+                own = calls_in_func(fn, tail)
+                everywhere = sum(len(calls_in_func(g, tail, into_lambda=True)) for g in _all_bodies(fn))
+                if not own:
+                    raise AnchorVanished("move_child_to (inlineCallbacks): no %s call in the generator body" % tail)
+                if everywhere != len(own):
+                    raise AnchorVanished("move_child_to (inlineCallbacks): %s is also called from a nested function / "
+                                         "lambda - callbacks mixed into the generator are not analysed" % tail)
+                return own
+            rd = fnorm.rd
+
+            def wait_nodes(c, what):
+                """The CFG nodes at which the generator waits for the Deferred of call c (None: the result is dropped)."""
+                W, here = [], nodes_of(c)
+                here_ids = {n.id for n in here}
+                if not here:
+                    raise AnchorVanished("move_child_to (inlineCallbacks): %s not found in the CFG" % what)
+                for n in here:
+                    a = n.ast
+                    if any(isinstance(y, ast.Yield) and y.value is not None and same_expr(y.value, c) for y in own_nodes(a)):
+                        W.append(n)
+                    elif isinstance(a, ast.Expr) and same_expr(a.value, c):
+                        return None
+                    elif isinstance(a, ast.Assign) and len(a.targets) == 1 and isinstance(a.targets[0], ast.Name) \
+                            and same_expr(a.value, c):
+                        v = a.targets[0].id
+                        for m in cfg.nodes:
+                            if m.kind == "stmt" and any(isinstance(y, ast.Yield) and isinstance(y.value, ast.Name)
+                                                        and y.value.id == v for y in own_nodes(m.ast)):
+                                ds = set(rd.get(m.id, {}).get(v) or ())
+                                if ds and ds <= here_ids:
+                                    W.append(m)
+                    else:
+                        raise AnchorVanished("move_child_to (inlineCallbacks): what happens to the Deferred of %s is not "
+                                             "understood: %s" % (what, src(fn, a)))
+                return W
+            fetches = own_calls("get_child_and_metadata")
+            if len(fetches) != 1:
+                raise AnchorVanished("move_child_to (inlineCallbacks): %d calls of get_child_and_metadata" % len(fetches))
+            getc = fetches[0]
+            F_nodes = nodes_of(getc)
+            if not wait_nodes(getc, "get_child_and_metadata"):
+                raise AnchorVanished("move_child_to (inlineCallbacks): the fetched (child, metadata) pair is not waited for")
+            set_calls = [(fn, c) for c in own_calls("set_node")]
+            del_calls = [(fn, c) for c in own_calls("delete")]
+            S_nodes = [n for (_g, c) in set_calls for n in nodes_of(c)]
+            D_nodes = [n for (_g, c) in del_calls for n in nodes_of(c)]
+            nS = S_nodes[0] if S_nodes else None
+            nD = D_nodes[0] if D_nodes else None
+            r.site(fn, set_calls[0][1], "set_node step")
+            r.site(fn, del_calls[0][1], "delete step")
+            W_ids = set()
+            for (_g, c) in set_calls:
+                W = wait_nodes(c, "set_node")
+                if W is None:
+                    r.violation(fn, fn.loc(c), "the Deferred of %s is dropped instead of being yielded: delete runs without "
+                                "waiting for (or despite the failure of) the link into the new parent" % src(fn, c))
+                else:
+                    W_ids |= {n.id for n in W}
+            D_ids = {n.id for n in D_nodes}
+            for (t, w) in find_path_avoiding(cfg, lambda x: x.id in D_ids, gate_node=lambda x: x.id in W_ids):
+                r.violation(fn, fn.loc(t.ast), "the old link is deleted on a path on which new_parent.set_node has not "
+                            "succeeded (not yet called, not waited for, or its failure was caught / passed through a "
+                            "finally): a failed rename loses the child (path: %s)" % w.brief(), w)
+                break
+
+            def from_pair(g, a):
+                return "self.get_child_and_metadata" in depends_on(g, a)
+
         r.require(call_name(getc) in ("self.get_child_and_metadata",) and len(getc.args) == 1, fn, fn.loc(getc),
-                  "the chain does not start from self.get_child_and_metadata(name): %s" % src(fn, getc))
-        fetched = fnorm.norm(srcs[0], getc.args[0]) if getc.args else None
-        # set_node callback
-        gS = target_fn(chain[iS])
-        set_calls = calls_of(chain[iS], "set_node")
-        nS = _node_of_call(cfg, chain[iS].call)
-        new_name_norm = None
+                  "the move does not start from self.get_child_and_metadata(name): %s" % src(fn, getc))
+
+        def peeled(node, e):
+            """Normal form of a name expression with local copies resolved and normalize(..) wrappers removed: two
+            expressions with the same peeled form address the same entry of the NFC-keyed children map."""
+            for _ in range(6):
+                e = fnorm.resolve(node, e) if node is not None else e
+                if _is_normalize_call(e):
+                    e = e.args[0] if e.args else e.keywords[0].value
+                else:
+                    break
+            return fnorm.norm(node, e) if node is not None else None
+        fetched = peeled(F_nodes[0], getc.args[0]) if getc.args and F_nodes else None
+        # set_node
+        new_name = None
         for (g, c) in set_calls:
             r.require(call_name(c) == NP + ".set_node", g, g.loc(c), "set_node is called on %s, not on the new parent %s" % (
                 call_name(c), NP))
@@ -1246,12 +1377,10 @@ def run(ctx: Context):
             r.require(isinstance(ow, ast.Name) and ow.id == "overwrite", g, g.loc(c),
                       "the overwrite mode is not forwarded to set_node (a no-overwrite rename can replace an entry)")
             a0 = arg(c, 0, "namex")
-            new_name_norm = fnorm.norm(nS, a0) if a0 is not None and nS is not None else None
-            gp = g.params
+            new_name = peeled(nS, a0) if a0 is not None and nS is not None else None
             for (pos, nm) in ((1, "child"), (2, "metadata")):
                 a = arg(c, pos, nm)
-                dep = depends_on(g, a) if a is not None else set()
-                r.require(a is not None and bool(dep & set(gp)), g, g.loc(c),
+                r.require(a is not None and from_pair(g, a), g, g.loc(c),
                           "set_node's %s does not come from the fetched (child, metadata) pair" % nm)
         # the new name is the caller's, unless none was given
         NNP = ps[2] if ps[2] != "overwrite" else None
@@ -1264,7 +1393,8 @@ def run(ctx: Context):
             defs = [n for n in cfg.nodes if n.kind == "stmt" and a0.id in node_stores(n)]
             r.require(bool(defs) or a0.id == NNP, g, g.loc(c), "the name given to set_node (%s) is not a local of "
                       "move_child_to derived from %s" % (a0.id, NNP))
-            r.require(not defs or any(NNP in depends_on(fn, n.ast.value) for n in defs if isinstance(n.ast, ast.Assign)),
+            r.require(a0.id == NNP or not defs or any(NNP in depends_on(fn, n.ast.value) for n in defs
+                                                       if isinstance(n.ast, ast.Assign)),
                       g, g.loc(c), "the name given to set_node never comes from the caller's %s" % NNP)
             for n in defs:
                 if isinstance(n.ast, ast.Assign) and NNP in depends_on(fn, n.ast.value):
@@ -1274,24 +1404,12 @@ def run(ctx: Context):
                     r.violation(fn, fn.loc(n.ast), "the new name is set to %s although the caller's %s was not seen to be "
                                 "None: a rename keeps the old name (and, in the same directory, does nothing; path: %s)" % (
                                     src(fn, n.ast), NNP, w.brief()), w)
-        gcfg = gS.cfg()
-        gnorm = FlowNorm(gS)
-
-        def returns_set(n):
-            if not is_return(n) or n.ast.value is None:
-                return False
-            v = gnorm.resolve(n, n.ast.value)
-            return isinstance(v, ast.Call) and call_tail(v) == "set_node"
-        for (t, w) in find_path_avoiding(gcfg, lambda x: x.kind == "exit", gate_node=returns_set):
-            r.violation(gS, gS.loc(), "the set_node callback does not return set_node's Deferred: delete runs without "
-                        "waiting for (or despite the failure of) the link into the new parent", w)
-        # delete callback
-        nD = _node_of_call(cfg, chain[iD].call)
+        # delete
         deleted = None
-        for (g, c) in calls_of(chain[iD], "delete"):
+        for (g, c) in del_calls:
             r.require(call_name(c) == "self.delete", g, g.loc(c), "delete is called on %s" % call_name(c))
             a0 = arg(c, 0, "namex")
-            deleted = fnorm.norm(nD, a0) if a0 is not None and nD is not None else None
+            deleted = peeled(nD, a0) if a0 is not None and nD is not None else None
             r.require(deleted is not None and deleted == fetched, g, g.loc(c),
                       "the deleted name %s is not the fetched name %s" % (deleted, fetched))
             for kw in c.keywords:
@@ -1300,36 +1418,85 @@ def run(ctx: Context):
         # rename-to-self shortcut
         caps = ("get_write_uri", "get_uri", "get_readonly_uri", "get_storage_index", "get_verify_cap")
         capre = re.compile(r"^(self|%s)\.(%s)\(\)$" % (re.escape(NP), "|".join(caps)))
+        judge3 = _NameJudge(idx)
+        raw_guards = []
 
-        def kind_of(f, eq):
-            """'name' / 'dir' when the fact relates the two names / the two directories with (in)equality."""
+        def cmp_operands(n):
+            """The two operand expressions of the comparison tested at n (through `not` and a flag local)."""
+            e = n.ast
+            for _ in range(6):
+                if isinstance(e, ast.UnaryOp) and isinstance(e.op, ast.Not):
+                    e = e.operand
+                elif isinstance(e, ast.Name) and isinstance(fnorm.env_at(n).defs.get(e.id), (ast.Compare, ast.UnaryOp)):
+                    e = fnorm.env_at(n).defs[e.id]
+                else:
+                    break
+            if isinstance(e, ast.Compare) and len(e.ops) == 1:
+                return e.left, e.comparators[0]
+            return None
+
+        def kind_of(n, lab, eq):
+            """'name' / 'dir' when the edge fact relates the two names / the two directories with (in)equality.  Equal
+            raw names are equal entries, but only *different normalize()d names* are different entries: for the
+            inequality both operands must be results of normalize(..)."""
+            f = fnorm.edge_fact(n, lab)
             if not f:
                 return None
             op, l, rr = f
             if op not in (("==", "is") if eq else ("!=", "is not")):
                 return None
-            if new_name_norm is not None and deleted is not None and {l, rr} == {new_name_norm, deleted}:
-                return "name"
             a, b = capre.match(l or ""), capre.match(rr or "")
             if a and b and a.group(1) != b.group(1) and a.group(2) == b.group(2):
                 return "dir"
-            return None
-        effect_nodes = {id(x) for x in (nS, nD, srcs[0]) if x is not None}
-        r.site(fn, srcs[0].ast, "effects gated by the shortcut")
-        for (t, w) in find_path_avoiding(cfg, lambda x: id(x) in effect_nodes,
-                                         gate_edge=lambda n, lab: kind_of(fnorm.edge_fact(n, lab), False) is not None):
-            r.violation(fn, fn.loc(t.ast), "a rename onto the same name in the same directory is not short-circuited: "
-                        "the child is re-linked and then deleted (path: %s)" % w.brief(), w)
+            ops_ = cmp_operands(n)
+            if ops_ is None or new_name is None or deleted is None or new_name == deleted:
+                return None
+            if {peeled(n, ops_[0]), peeled(n, ops_[1])} != {new_name, deleted}:
+                return None
+            if eq:
+                return "name"
+            bad = []
+            for o in ops_:
+                bad += judge3.judge(fn, n, o)
+            if bad:
+                if n.id not in {x[0].id for x in raw_guards}:
+                    raw_guards.append((n, bad))
+                return None
+            return "name"
+        effect_ids = {x.id for x in list(S_nodes) + list(D_nodes) + list(F_nodes)}
+        r.site(fn, F_nodes[0].ast, "effects gated by the shortcut")
+        for (t, w) in find_path_avoiding(cfg, lambda x: x.id in effect_ids, gate_node=leaves_early,
+                                         gate_edge=lambda n, lab: kind_of(n, lab, False) is not None):
+            if raw_guards:
+                gn, bad = raw_guards[0]
+                r.violation(fn, fn.loc(gn.ast), "the rename-to-self shortcut compares names that are not normalize()d (%s): "
+                            "get_child_and_metadata / set_node / delete address the entry by the normalised name, so a "
+                            "rename between two unicode spellings of one name is not short-circuited - the child is "
+                            "re-linked onto itself and then deleted (path: %s)" % (bad[0][2], w.brief()), w)
+            else:
+                r.violation(fn, fn.loc(t.ast), "a rename onto the same name in the same directory is not short-circuited: "
+                            "the child is re-linked and then deleted (path: %s)" % w.brief(), w)
             break
-        shortcuts = [n for n in cfg.find(is_return) if isinstance(_returned(cfg, fnorm, n), ast.Call)
-                     and call_tail(_returned(cfg, fnorm, n)) in ("succeed",)]
+        S_ids = {x.id for x in S_nodes}
+
+        def is_shortcut(n):
+            if not leaves_early(n):
+                return False
+            if is_return(n):
+                v = _returned(cfg, fnorm, n)
+                if isinstance(v, ast.Call) and call_tail(v) == "fail":
+                    return False
+                if not inline and not (isinstance(v, ast.Call) and call_tail(v) == "succeed"):
+                    return False
+            return True
+        shortcuts = [t for (t, _w) in find_path_avoiding(cfg, is_shortcut, gate_node=lambda x: x.id in S_ids)]
         for sn in shortcuts:
             r.site(fn, sn.ast, "shortcut return")
 
         def tr(n, lab, nxt, st):
             if lab == "exc":
                 return st
-            k = kind_of(fnorm.edge_fact(n, lab), True)
+            k = kind_of(n, lab, True)
             if k == "name":
                 return (True, st[1])
             if k == "dir":
